@@ -4,10 +4,42 @@
 
 package autog
 
+// layersCover: every node of the component sits in one of its bands (established by phase 2, kept by phase 3)
+//@ spec layersCover(g *graph.DGraph) bool =
+//@   forall i int :: 0 <= i && i < len(g.Nodes) ==> g.Nodes[i] != nil
+//@     && (exists b int, k int :: 0 <= b && b < len(g.Layers) && 0 <= k && k < len(g.Layers[b].Nodes) && g.Layers[b].Nodes[k] == g.Nodes[i])
+
+// Layout, views C04/C09: placing the connected components next to each other. What the positioners guarantee per
+// component (sepOK, xNonNeg - proved for VAlign and PackRight in internal/phase4) is not visible across the interface
+// dispatch phase.Process, so it is taken as an explicit, reported assumption at the point where the pipeline is done.
+// From there the code of Layout is verified: the shift loop finds an x that is right of every node of the component,
+// every node already emitted ends at least NodeSpacing left of the running shift, and every node emitted for the
+// current component starts at or right of it.
 //@ func Layout
 //@   requires monitor.m == nil
 //@   ensures monitor.m == nil
 //@   ensures_on_panic monitor.m == nil
+//@   assume[spacing|C04,C09] after "for _, opt := range opts" : layoutOpts.params.NodeSpacing >= 0.0
+//@   assume[phase4|C04,C09] after "postprocessor.UnreverseEdges(g)" : g != nil && bandsDistinct(g) && sizesNonNeg(g) && layersCover(g)
+//@       && sepOK(g, layoutOpts.params.NodeSpacing) && xNonNeg(g)
+//@   loop range(connected.Components(G))#1 index c
+//@     invariant[|C04,C09] shift >= 0.0 && layoutOpts.params.NodeSpacing >= 0.0
+//@     invariant[ends|C04,C09] forall i int :: 0 <= i && i < len(out.Nodes) ==> out.Nodes[i].X + out.Nodes[i].W + layoutOpts.params.NodeSpacing <= shift
+//@   loop range(g.Nodes)#1 index d
+//@     invariant[|C04,C09] len(out.Nodes) >= loopold(len(out.Nodes))
+//@     invariant[starts|C04,C09] forall j int :: loopold(len(out.Nodes)) <= j && j < len(out.Nodes) ==> out.Nodes[j].X >= shift
+//@     invariant[fits|C04,C09] forall j int :: 0 <= j && j < len(out.Nodes) ==>
+//@          out.Nodes[j].X + out.Nodes[j].W + layoutOpts.params.NodeSpacing <= shift
+//@          || (exists b int, k int :: 0 <= b && b < len(g.Layers) && 0 <= k && k < len(g.Layers[b].Nodes)
+//@             && out.Nodes[j].X == g.Layers[b].Nodes[k].X + shift && out.Nodes[j].W == g.Layers[b].Nodes[k].W)
+//@   assert[fitsAfter|C04,C09] after "for _, l := range g.Layers" : forall j int :: 0 <= j && j < len(out.Nodes) ==>
+//@          out.Nodes[j].X + out.Nodes[j].W + layoutOpts.params.NodeSpacing <= shift + rightmostX + layoutOpts.params.NodeSpacing
+//@   loop range(g.Edges)#1 index e
+//@     invariant[|C04,C09] out.Nodes == loopold(out.Nodes)
+//@   loop range(g.Layers)#1 index a
+//@     invariant[|C04,C09] rightmostX >= 0.0
+//@     invariant[rightmost|C04,C09] forall b int, k int :: 0 <= b && b < a && 0 <= k && k < len(g.Layers[b].Nodes) ==>
+//@          g.Layers[b].Nodes[k].X + g.Layers[b].Nodes[k].W <= rightmostX
 
 // ---------------------------------------------------------------------------
 // size options (C02). Func$N is the N-th function literal of Func in source order; here the inner literal that
